@@ -34,11 +34,20 @@ def scan_assumptions(text):
     found = []
     pats = ["assume(", "admit(", "external_body", "assume_specification",
             "exec_allows_no_decreases_clause", "external_fn_specification", "#[verifier::external"]
-    for n, ln in enumerate(text.split('\n'), 1):
+    lines = text.split('\n')
+    for n, ln in enumerate(lines, 1):
         code = ln.split('//')[0]
         for p in pats:
             if p in code:
-                found.append("%s @gen:%d: %s" % (p, n, code.strip()[:140]))
+                desc = code.strip()
+                if desc.replace(rsx.MARK, "").strip().startswith("#[") and desc.replace(rsx.MARK, "").strip().endswith("]"):
+                    # attribute on its own line: name the item it is attached to
+                    k = n
+                    while k < len(lines) and not lines[k].strip():
+                        k += 1
+                    if k < len(lines):
+                        desc += " " + lines[k].split('//')[0].strip()
+                found.append("%s @gen:%d: %s" % (p, n, desc.replace(rsx.MARK, "").strip()[:200]))
                 break
     return found
 
